@@ -1603,7 +1603,7 @@ class Time(Atomic):
 
         # a whole number of hundredths stays that number, whatever the
         # binary fraction makes of it
-        self.value = (tup[3], tup[4], tup[5], int((when - int(when)) * 100 + 0.0001))
+        self.value = (tup[3], tup[4], tup[5], min(int((when - int(when)) * 100 + 0.0001), 99))
 
         return self
 
